@@ -4,6 +4,7 @@
 package zz_pipeline
 
 import (
+	"github.com/Azbesciak/RealDecisionMaker/lib/model"
 	rt "github.com/Azbesciak/RealDecisionMaker/lib/zz_verifrt"
 )
 
@@ -43,10 +44,13 @@ func HC02_maporder() {
 	rt.Assert("C02.same-response-under-any-map-order", rt.DeepEqual(out1.Choice, out2.Choice))
 }
 
-//verif:harness HC02_history mode=REAL reach=answered-twice
+//verif:harness HC02_history mode=REAL race=true reach=answered-twice
 func HC02_history() {
 	c := ChooseStd([]string{"criteriaOmission", "fatigue", "criteriaMixing", "criteriaConcealment"})
-	other := StdChoice{Method: rt.OneOf("other-method", "majorityHeuristic", "aspectEliminationHeuristic"), Variant: "fatigue", CC: "none", AllConsidered: true, Values: 2}
+	other := StdChoice{Method: rt.OneOf("other-method", "majorityHeuristic", "aspectEliminationHeuristic", "electreIII"), Variant: "fatigue", CC: "none", AllConsidered: true, Values: 2, Rich: true}
+	if other.Method == "electreIII" {
+		other.Variant = "criteriaOmission"
+	}
 	c07known(c.Method, []string{c.Variant})
 	x1 := c.Build("")
 	rt.Epoch()
@@ -57,6 +61,15 @@ func HC02_history() {
 	x3 := c.Build("")
 	out3 := Decide(x3)
 	rt.Assert("C02.no-state-kept-between-requests", rt.SharedWrites() == 0)
+	if rt.RaceMode() {
+		// native confirmation of a store into shared state: X and Y requests interleaved under the race detector
+		RaceRun(func(kind int) *model.DecisionMaker {
+			if kind == 0 {
+				return c.Build("")
+			}
+			return other.BuildOpt("y.", true)
+		}, 2, out1)
+	}
 	rt.Assert("C02.same-verdict-after-other-requests", out1.Panicked == out3.Panicked)
 	if !out1.Panicked && !out3.Panicked {
 		rt.Reach("answered-twice")
